@@ -465,14 +465,14 @@ pub fn c14_matrix_orders_6_12() {
     orders_light::<AdjacencyMatrix>(6, 12);
 }
 
-// @verif prop=C14 tier=thorough fl=f1 role=orders/edge-list t=3600 mem=24
+// @verif prop=C14 tier=thorough fl=f1 role=orders/edge-list t=3600 mem=16
 #[cfg_attr(kani, kani::proof)]
 #[cfg_attr(kani, kani::unwind(60))]
 pub fn c14_edge_list_orders_6_7() {
     orders_light::<EdgeList>(6, 7);
 }
 
-// @verif prop=C14 tier=thorough fl=f2 role=orders/adjacency-list t=3600 mem=24
+// @verif prop=C14 tier=thorough fl=f2 role=orders/adjacency-list t=3600 mem=16
 #[cfg_attr(kani, kani::proof)]
 #[cfg_attr(kani, kani::unwind(10))]
 pub fn c14_adjacency_list_orders_6_8() {
